@@ -304,7 +304,7 @@ func init() {
 			sizes = append(sizes, fmt.Sprintf("%s:%d", n, len(dims[n])))
 		}
 		rep.Rule = "manifest dimensions (" + strings.Join(sizes, " x ") + "): full product of the core dimensions replicas x podManagementPolicy x updateStrategy x annotations, times every choice of at most 1 (thorough: 2) of the remaining dimensions away from its first value, plus spec-less objects; each admitted (pruned, defaulted, validated) by a mini structural-schema interpreter reading /repo/manifests/crd.v1.yaml version " + ver +
-			", decoded into the typed object, with and without client-side SetObjectDefaults; each object is driven through a journey of real reconciles (create, steady, template change, failed pod, scale-in at slot 0, deletion; kubelet steps in between) and reconciled against 6 hand-made pod populations (three with pods at ordinals 2^31-1 and 2^31-2); every reconcile must return without panicking; the same oracle runs over the ownership grid of C10/C13 (own / orphan / foreign pods and revisions, deleting and stale sets). distinct = distinct start states."
+			", decoded into the typed object, with and without client-side SetObjectDefaults; each object is driven through a journey of real reconciles (create, steady, template change, failed pod, scale-in at slot 0, deletion; kubelet steps in between) and reconciled against 6 hand-made pod populations (three with pods at ordinals 2^31-1 and 2^31-2); every reconcile must return without panicking; the same oracle runs over the ownership grid of C10/C13 (own / orphan / foreign pods and revisions, deleting and stale sets). Replica counts at the top of the int32 range (2^31-1, with and without delete slots below) are reconciled once each in a child process under an address-space limit, because the controller sizes a slice by the replica count. distinct = distinct start states."
 		rep.Assumptions = []string{"the mini interpreter (type, required, properties, items, minimum, default, x-kubernetes-preserve-unknown-fields) stands in for the apiextensions validator, which cannot be built offline", "only type-correct values are generated for fields the typed client decodes", "replicas / slots near MaxInt32 are excluded (the reconciler allocates a slice of that length)"}
 		deadline := explore.Deadline(100*time.Second, 15*time.Minute)
 		ch := make(chan c15Case, 64)
@@ -392,6 +392,7 @@ func init() {
 			rep.AddStates(n, n)
 			rep.Extra["ownership_grid_cases"] = n
 		}
+		c15Huge(rep)
 		rep.Extra["objects_admitted"] = admitted
 		rep.Extra["manifests_rejected_by_schema"] = rejected
 		rep.Extra["undecodable"] = undecodable
